@@ -87,6 +87,11 @@ def run(ctx, case):
                 r_ = random.Random(case["chart_seed"] + 1)
                 # lists with non-default row labels / order (filtered, reversed, shuffled, rate-changed, split and re-appended)
                 hist = charts.gen_history(r_, allowed=["filter_mask", "sorted", "shuffle", "reverse", "append_split", "rate", "stack_noop"]) if r_.random() < 0.6 else []
+                if r_.random() < 0.3:
+                    for ch_ in spec["charts"]:
+                        for h_ in ch_["holds"]:
+                            if r_.random() < 0.4:
+                                h_[2] = 0.0  # a hold that ends where it starts still has its (requested) tail
                 m = charts.apply_history(charts.build(spec), hist)
                 m = m.maps[0] if hasattr(m, "maps") else m
                 ctx.state("c20.from_lists_history", tuple(h[0] for h in hist))
